@@ -63,18 +63,21 @@ func (svr *Server) handshakeControlChannel(wsc websocket.Conn) {
 
 		// 初始化
 		channelID := security.NewID().String()
+		// 先登记会话再应答：客户端一读到通道号就可能发起数据通道的 JOIN，
+		// 此时会话必须已经能按通道号找到，否则 JOIN 得到 404
+		session := newSession(svr, wsc, channelID)
+		svr.sessions.Store(channelID, session)
 		buf := buffers.Get().(*bytes.Buffer)
 		buf.Reset()
 		defer buffers.Put(buf)
 		req.ResponseOK(buf, map[string]string{FieldChannel: channelID}, "")
 		_, err = wsc.Write(buf.Bytes())
 		if err != nil {
+			svr.sessions.Delete(channelID)
 			svr.logger.Error(err.Error())
 			wsc.Close()
 			break
 		}
-		session := newSession(svr, wsc, channelID)
-		svr.sessions.Store(channelID, session)
 		svr.logger.Debugf("wsp ===>>> \r\n%s", buf.String())
 		go session.process()
 		break
